@@ -192,3 +192,516 @@ Qed.
 
 Lemma in_alphabet_ascii c : in_b32_alphabet c = true -> (c <? 128) = true /\ c <> b32_pad.
 Proof. rewrite in_alphabet_model_spec. unfold in_alphabet_spec, b32_pad. lia. Qed.
+
+(* ===================================================================================================================== *)
+(* one quantum: 8 characters <-> one 40-bit number <-> 5 bytes                                                             *)
+
+Definition horner (a v : Z) : Z := Z.shiftl a 5 + v.
+
+Lemma fold_acc_step q a : forallb in_b32_alphabet q = true ->
+  fold_left acc_step q (Some a) = Some (fold_left horner (map char_value q) a).
+Proof.
+  revert a; induction q as [|c r IH]; intros a Hq; cbn [forallb] in Hq; cbn [fold_left map]; [reflexivity|].
+  apply andb_true_iff in Hq as [Hc Hr].
+  replace (acc_step (Some a) c) with (Some (horner a (char_value c))) by (unfold acc_step; now rewrite (in_alphabet_val c Hc)).
+  apply IH, Hr.
+Qed.
+
+Lemma fold_horner ds a : fold_left horner ds a = a * 32 ^ Z.of_nat (length ds) + from_digits_be 32 ds.
+Proof.
+  revert a; induction ds as [|d r IH]; intros a; cbn [fold_left length].
+  - unfold from_digits_be. cbn [rev from_digits_le]. change (Z.of_nat 0) with 0. rewrite Z.pow_0_r. lia.
+  - rewrite IH. unfold from_digits_be, horner. cbn [rev]. rewrite from_digits_le_app. cbn [from_digits_le].
+    rewrite rev_length, Z.shiftl_mul_pow2, Nat2Z.inj_succ, Z.pow_succ_r by lia. change (2 ^ 5) with 32. ring.
+Qed.
+
+Lemma quantum_acc_alpha q : forallb in_b32_alphabet q = true -> quantum_acc q = Some (text_value q).
+Proof.
+  intros Hq. unfold quantum_acc. rewrite fold_acc_step by exact Hq. rewrite fold_horner. unfold text_value. f_equal; ring.
+Qed.
+
+Lemma digit32_list n x d : In d (to_digits_le 32 n x) -> 0 <= d < 32.
+Proof. pose proof (to_digits_le_range 32 ltac:(lia) n x) as Hall. rewrite Forall_forall in Hall. apply Hall. Qed.
+
+Lemma enc_group_alpha g : forallb in_b32_alphabet (enc_group g) = true.
+Proof.
+  unfold enc_group, to_digits_be. rewrite forallb_forall. intros c Hin. apply in_map_iff in Hin as [d [<- Hd]].
+  apply in_rev in Hd. apply b32_char_in_alphabet. exact (digit32_list _ _ _ Hd).
+Qed.
+
+Lemma map_id_in {A} (f : A -> A) l : (forall x, In x l -> f x = x) -> map f l = l.
+Proof. intros Hf. rewrite <- (map_id l) at 2. apply map_ext_in, Hf. Qed.
+
+Lemma text_value_digits ds : (forall d, In d ds -> 0 <= d < 32) -> text_value (map b32_char ds) = from_digits_be 32 ds.
+Proof.
+  intros Hd. unfold text_value. rewrite map_map. f_equal. apply map_id_in. intros d Hin. apply char_value_char, Hd, Hin.
+Qed.
+
+Lemma text_value_enc_group g : text_value (enc_group g) = from_be g mod 32 ^ 8.
+Proof.
+  unfold enc_group, to_digits_be. rewrite text_value_digits by (intros d Hd; apply in_rev in Hd; exact (digit32_list _ _ _ Hd)).
+  unfold from_digits_be. rewrite rev_involutive, from_to_digits_le by lia. reflexivity.
+Qed.
+
+Lemma quantum_enc_group g : length g = 5%nat -> wf_bytes g = true -> quantum_acc (enc_group g) = Some (from_be g).
+Proof.
+  intros Hl Hwf. rewrite quantum_acc_alpha by apply enc_group_alpha. rewrite text_value_enc_group. f_equal.
+  apply Z.mod_small. pose proof (from_be_bound g Hwf) as Hb. rewrite Hl in Hb. exact Hb.
+Qed.
+
+Lemma enc_group_8 g : exists c0 c1 c2 c3 c4 c5 c6 c7, enc_group g = [c0; c1; c2; c3; c4; c5; c6; c7].
+Proof. unfold enc_group, to_digits_be. cbn [to_digits_le rev app map]. repeat eexists. Qed.
+
+Lemma dec_accs_cons8 c0 c1 c2 c3 c4 c5 c6 c7 r :
+  dec_accs (c0 :: c1 :: c2 :: c3 :: c4 :: c5 :: c6 :: c7 :: r) =
+  match quantum_acc [c0; c1; c2; c3; c4; c5; c6; c7], dec_accs r with Some a, Some l => Some (a :: l) | _, _ => None end.
+Proof. reflexivity. Qed.
+
+Lemma enc_groups_cons5 a b c d e r : enc_groups (a :: b :: c :: d :: e :: r) = enc_group [a; b; c; d; e] ++ enc_groups r.
+Proof. reflexivity. Qed.
+
+(* ===================================================================================================================== *)
+(* whole strings                                                                                                           *)
+
+Lemma enc_groups_props n : forall b, length b = (5 * n)%nat -> wf_bytes b = true ->
+  length (enc_groups b) = (8 * n)%nat /\ forallb in_b32_alphabet (enc_groups b) = true /\
+  exists accs, dec_accs (enc_groups b) = Some accs /\ flat_map (to_be 5) accs = b.
+Proof.
+  induction n as [|n IH]; intros b Hlen Hwf.
+  - destruct b; [|discriminate]. split; [reflexivity|]. split; [reflexivity|]. exists []. split; reflexivity.
+  - destruct b as [|a [|b1 [|c [|d [|e r]]]]]; try (cbn [length] in Hlen; lia).
+    assert (Hr : length r = (5 * n)%nat) by (cbn [length] in Hlen; lia).
+    change (a :: b1 :: c :: d :: e :: r) with ([a; b1; c; d; e] ++ r) in Hwf. rewrite wf_app in Hwf.
+    apply andb_true_iff in Hwf as [Hg Hwr]. destruct (IH r Hr Hwr) as (Hl & Ha & accs & Hd & Hf).
+    rewrite enc_groups_cons5.
+    pose proof (quantum_enc_group [a; b1; c; d; e] eq_refl Hg) as Hq.
+    pose proof (enc_group_alpha [a; b1; c; d; e]) as Hga.
+    destruct (enc_group_8 [a; b1; c; d; e]) as (c0 & c1 & c2 & c3 & c4 & c5 & c6 & c7 & He). rewrite He in *.
+    split; [rewrite app_length, Hl; cbn [length]; lia|]. split; [now rewrite forallb_app, Hga, Ha|].
+    exists (from_be [a; b1; c; d; e] :: accs). cbn [app]. rewrite dec_accs_cons8, Hq, Hd. split; [reflexivity|].
+    cbn [flat_map]. rewrite Hf. change 5%nat with (length [a; b1; c; d; e]). rewrite to_be_from_be by exact Hg. reflexivity.
+Qed.
+
+Lemma rstrip_id p s : Forall (fun c => c <> p) s -> rstrip p s = s.
+Proof.
+  induction 1 as [|c r Hc Hr IH]; cbn [rstrip]; [reflexivity|]. rewrite IH. destruct r; [|reflexivity].
+  destruct (Z.eqb_spec c p); [contradiction | reflexivity].
+Qed.
+
+Lemma b32decode_unpadded s accs : forallb in_b32_alphabet s = true -> (length s mod 8 = 0)%nat -> dec_accs s = Some accs ->
+  b32decode s = Ok (flat_map (to_be 5) accs).
+Proof.
+  intros Ha Hl Hd. unfold b32decode. cbv zeta.
+  assert (H1 : forallb (fun c => c <? 128) s = true).
+  { rewrite forallb_forall in *. intros c Hin. apply in_alphabet_ascii, Ha, Hin. }
+  assert (H2 : rstrip b32_pad s = s).
+  { apply rstrip_id. rewrite Forall_forall. rewrite forallb_forall in Ha. intros c Hin. apply in_alphabet_ascii, Ha, Hin. }
+  rewrite H1, Hl, H2, Hd, Nat.sub_diag. reflexivity.
+Qed.
+
+Lemma mod_mul_nat k n : k <> 0%nat -> ((k * n) mod k = 0)%nat.
+Proof. intros Hk. rewrite Nat.mul_comm. now apply Nat.mod_mul. Qed.
+
+Lemma b32encode_mult5 n b : length b = (5 * n)%nat -> b32encode b = enc_groups b.
+Proof. intros Hl. unfold b32encode. rewrite Hl, mod_mul_nat by lia. reflexivity. Qed.
+
+(* decode (encode b) = b for every well-formed byte string whose length is a multiple of 5 (no padding involved) *)
+Lemma b32_roundtrip_mult5 n b : length b = (5 * n)%nat -> wf_bytes b = true -> b32decode (b32encode b) = Ok b.
+Proof.
+  intros Hlen Hwf. rewrite (b32encode_mult5 n) by exact Hlen.
+  destruct (enc_groups_props n b Hlen Hwf) as (Hl & Ha & accs & Hd & Hf).
+  rewrite (b32decode_unpadded _ accs Ha); [now rewrite Hf | rewrite Hl; apply mod_mul_nat; lia | exact Hd].
+Qed.
+
+(* ---- decoding text over the alphabet never fails and yields the number the text spells ---- *)
+Lemma text_value_app q r : text_value (q ++ r) = text_value q * 32 ^ Z.of_nat (length r) + text_value r.
+Proof.
+  unfold text_value, from_digits_be. rewrite map_app, rev_app_distr, from_digits_le_app, rev_length, map_length. ring.
+Qed.
+
+Lemma text_value_bound s : 0 <= text_value s < 32 ^ Z.of_nat (length s).
+Proof.
+  unfold text_value, from_digits_be. rewrite <- (map_length char_value s), <- (rev_length (map char_value s)).
+  apply from_digits_le_bound; [lia|]. apply Forall_rev. rewrite Forall_forall. intros d Hin.
+  apply in_map_iff in Hin as [c [<- _]]. apply char_value_range.
+Qed.
+
+Lemma pow_32_256 n : 32 ^ Z.of_nat (8 * n) = 256 ^ Z.of_nat (5 * n).
+Proof. change 32 with (2 ^ 5). change 256 with (2 ^ 8). rewrite <- !Z.pow_mul_r by lia. f_equal. lia. Qed.
+
+Lemma dec_accs_spec n : forall s, length s = (8 * n)%nat -> forallb in_b32_alphabet s = true ->
+  exists accs, dec_accs s = Some accs /\ flat_map (to_be 5) accs = to_be (5 * n) (text_value s).
+Proof.
+  induction n as [|n IH]; intros s Hl Ha.
+  - destruct s; [|discriminate]. exists []. split; reflexivity.
+  - destruct s as [|c0 [|c1 [|c2 [|c3 [|c4 [|c5 [|c6 [|c7 r]]]]]]]]; try (cbn [length] in Hl; lia).
+    assert (Hr : length r = (8 * n)%nat) by (cbn [length] in Hl; lia).
+    change (c0 :: c1 :: c2 :: c3 :: c4 :: c5 :: c6 :: c7 :: r) with ([c0; c1; c2; c3; c4; c5; c6; c7] ++ r) in Ha |- *.
+    set (q := [c0; c1; c2; c3; c4; c5; c6; c7]) in *.
+    rewrite forallb_app in Ha. apply andb_true_iff in Ha as [Hq Har].
+    destruct (IH r Hr Har) as (accs & Hd & Hf).
+    exists (text_value q :: accs). split.
+    + unfold q. cbn [app]. rewrite dec_accs_cons8. fold q. now rewrite (quantum_acc_alpha q Hq), Hd.
+    + cbn [flat_map]. rewrite Hf, text_value_app, Hr, pow_32_256.
+      replace (5 * S n)%nat with (5 + 5 * n)%nat by lia.
+      rewrite Z.add_comm, (Z.mul_comm (text_value q)). symmetry. apply to_be_split.
+      rewrite <- pow_32_256, <- Hr. apply text_value_bound.
+Qed.
+
+Lemma b32decode_alpha n s : length s = (8 * n)%nat -> forallb in_b32_alphabet s = true ->
+  b32decode s = Ok (to_be (5 * n) (text_value s)).
+Proof.
+  intros Hl Ha. destruct (dec_accs_spec n s Hl Ha) as (accs & Hd & Hf).
+  rewrite (b32decode_unpadded s accs Ha); [now rewrite Hf | rewrite Hl; apply mod_mul_nat; lia | exact Hd].
+Qed.
+
+(* ===================================================================================================================== *)
+(* the Symbol form: 24 bytes -> 39 characters (one '=' dropped) -> + 'A' -> 25 bytes -> last byte dropped                  *)
+
+Lemma firstn_app_exact {A} (l1 l2 : list A) k : k = length l1 -> firstn k (l1 ++ l2) = l1.
+Proof. intros ->. rewrite firstn_app, Nat.sub_diag, firstn_O, app_nil_r. apply firstn_all. Qed.
+
+Lemma skipn_app_exact {A} (l1 l2 : list A) k : k = length l1 -> skipn k (l1 ++ l2) = l2.
+Proof. intros ->. rewrite skipn_app, Nat.sub_diag, skipn_all. reflexivity. Qed.
+
+Lemma enc_groups_app n : forall x y, length x = (5 * n)%nat -> enc_groups (x ++ y) = enc_groups x ++ enc_groups y.
+Proof.
+  induction n as [|n IH]; intros x y Hl.
+  - destruct x; [reflexivity | discriminate].
+  - destruct x as [|a [|b [|c [|d [|e r]]]]]; try (cbn [length] in Hl; lia). cbn [app].
+    rewrite !enc_groups_cons5, IH by (cbn [length] in Hl; lia). now rewrite app_assoc.
+Qed.
+
+Lemma enc_groups_shape n : forall x, length x = (5 * n)%nat ->
+  length (enc_groups x) = (8 * n)%nat /\ forallb in_b32_alphabet (enc_groups x) = true.
+Proof.
+  induction n as [|n IH]; intros x Hx.
+  - destruct x; [split; reflexivity | discriminate].
+  - destruct x as [|a [|b1 [|c [|d [|e r]]]]]; try (cbn [length] in Hx; lia).
+    destruct (IH r ltac:(cbn [length] in Hx; lia)) as [Hlr Har].
+    destruct (enc_group_8 [a; b1; c; d; e]) as (c0 & c1 & c2 & c3 & c4 & c5 & c6 & c7 & He).
+    rewrite enc_groups_cons5, forallb_app, enc_group_alpha, Har, app_length, Hlr, He. cbn [length]. split; [lia | reflexivity].
+Qed.
+
+Lemma split_last4 n (a : bytes) : length a = (5 * n + 4)%nat ->
+  exists x p q r s, a = x ++ [p; q; r; s] /\ length x = (5 * n)%nat.
+Proof.
+  intros Hl. pose proof (firstn_skipn (5 * n) a) as Hs.
+  assert (Hx : length (firstn (5 * n) a) = (5 * n)%nat) by (apply firstn_length_le; lia).
+  assert (Ht : length (skipn (5 * n) a) = 4%nat) by (rewrite skipn_length; lia).
+  destruct (skipn (5 * n) a) as [|p [|q [|r [|s [|? ?]]]]]; try discriminate.
+  exists (firstn (5 * n) a), p, q, r, s. split; [now symmetry | exact Hx].
+Qed.
+
+Lemma enc_group_last_zero p q r s : exists c0 c1 c2 c3 c4 c5 c6, enc_group [p; q; r; s; 0] = [c0; c1; c2; c3; c4; c5; c6; 65].
+Proof.
+  assert (Hz : from_be [p; q; r; s; 0] mod 32 = 0).
+  { unfold from_be. cbn [rev app from_le]. Z.div_mod_to_equations. lia. }
+  unfold enc_group, to_digits_be. cbn [to_digits_le rev app map]. rewrite Hz. change (b32_char 0) with 65. repeat eexists.
+Qed.
+
+(* str(address) for 5n+4 bytes: the 8n+8 characters of the zero-extended value without the last one, which is 'A' *)
+Lemma sym_text_form n a : length a = (5 * n + 4)%nat ->
+  exists F, length F = (8 * n + 7)%nat /\ enc_groups (a ++ [0]) = F ++ [65] /\ address_to_string Symbol a = F
+            /\ forallb in_b32_alphabet F = true.
+Proof.
+  intros Hl. destruct (split_last4 n a Hl) as (x & p & q & r & s & -> & Hx).
+  destruct (enc_group_last_zero p q r s) as (c0 & c1 & c2 & c3 & c4 & c5 & c6 & Hg).
+  exists (enc_groups x ++ [c0; c1; c2; c3; c4; c5; c6]).
+  assert (HE : enc_groups ((x ++ [p; q; r; s]) ++ [0]) = (enc_groups x ++ [c0; c1; c2; c3; c4; c5; c6]) ++ [65]).
+  { rewrite <- app_assoc. cbn [app]. rewrite (enc_groups_app n) by exact Hx. rewrite enc_groups_cons5, Hg.
+    change (enc_groups []) with (@nil Z). rewrite app_nil_r, <- app_assoc. reflexivity. }
+  destruct (enc_groups_shape n x Hx) as [Hlx Hax].
+  assert (HlenF : length (enc_groups x ++ [c0; c1; c2; c3; c4; c5; c6]) = (8 * n + 7)%nat).
+  { rewrite app_length, Hlx. cbn [length]. lia. }
+  split; [exact HlenF|]. split; [exact HE|]. split.
+  - unfold address_to_string, sym_str_zeros, sym_str_lo, sym_str_drop, zeros. cbn [repeat]. rewrite app_nil_r.
+    unfold b32encode. replace (length (x ++ [p; q; r; s]) mod 5)%nat with 4%nat.
+    2:{ rewrite Hl, Nat.add_comm, Nat.mul_comm, Nat.mod_add by lia. reflexivity. }
+    cbv iota beta. change (zeros (5 - 4)) with [0]. rewrite HE.
+    unfold replace_tail. cbn [repeat]. rewrite app_length, HlenF. cbn [length].
+    rewrite (firstn_app_exact _ [65]) by lia. unfold slice_neg, slice. rewrite app_length, HlenF. cbn [length].
+    rewrite skipn_O. apply firstn_app_exact. lia.
+  - rewrite forallb_app. apply andb_true_iff. split.
+    + exact Hax.
+    + pose proof (enc_group_alpha [p; q; r; s; 0]) as Ha. rewrite Hg in Ha. cbn [forallb] in *.
+      repeat (apply andb_true_iff in Ha as [? Ha]). repeat (apply andb_true_iff; split; try assumption).
+Qed.
+
+(* decode (str(a) + 'A') = a ++ [0] for every well-formed a of 5n+4 bytes *)
+Lemma sym_b32_roundtrip n a : length a = (5 * n + 4)%nat -> wf_bytes a = true ->
+  b32decode (address_to_string Symbol a ++ [65]) = Ok (a ++ [0]).
+Proof.
+  intros Hl Hwf. destruct (sym_text_form n a Hl) as (F & _ & HE & -> & _). rewrite <- HE.
+  assert (Hl' : length (a ++ [0]) = (5 * S n)%nat) by (rewrite app_length, Hl; cbn [length]; lia).
+  rewrite <- (b32encode_mult5 (S n)) by exact Hl'. apply (b32_roundtrip_mult5 (S n)); [exact Hl'|].
+  rewrite wf_app, Hwf. reflexivity.
+Qed.
+
+(* ===================================================================================================================== *)
+(* Address(str) and str(address)                                                                                           *)
+
+Lemma address_from_bytes_ok fl b : length b = spec_size fl -> address_from_bytes fl b = Ok b.
+Proof. intros Hl. unfold address_from_bytes, byte_array. rewrite Hl. destruct fl; reflexivity. Qed.
+
+Lemma to_string_shape fl b : length b = spec_size fl ->
+  length (address_to_string fl b) = spec_encoded_size fl /\ forallb in_b32_alphabet (address_to_string fl b) = true.
+Proof.
+  intros Hl. destruct fl.
+  - destruct (sym_text_form 4 b Hl) as (F & HF & _ & -> & Ha). split; [exact HF | exact Ha].
+  - unfold address_to_string. rewrite (b32encode_mult5 5 b Hl).
+    exact (enc_groups_shape 5%nat b Hl).
+Qed.
+
+Lemma forallb_alphabets s : forallb in_b32_alphabet s = forallb in_alphabet_spec s.
+Proof. induction s as [|c r IH]; cbn [forallb]; [reflexivity | now rewrite IH, in_alphabet_model_spec]. Qed.
+
+(* 39 characters followed by ANY alphabet character: the 24 leading bytes do not depend on that character *)
+Lemma sym_decode_pad c s : in_b32_alphabet c = true -> length s = 39%nat -> forallb in_b32_alphabet s = true ->
+  b32decode (s ++ [c]) = Ok (to_be 24 (text_value s / 2 ^ 3) ++ to_be 1 ((text_value s * 32 + char_value c) mod 256)).
+Proof.
+  intros Hc Hl Ha.
+  rewrite (b32decode_alpha 5) by (rewrite ?app_length, ?forallb_app, ?Hl, ?Ha; cbn [forallb length]; rewrite ?Hc; reflexivity).
+  rewrite text_value_app. change (32 ^ Z.of_nat (length [c])) with 32.
+  replace (text_value [c]) with (char_value c) by (unfold text_value, from_digits_be; cbn [map rev app from_digits_le]; ring).
+  pose proof (char_value_range c) as Hr. pose proof (text_value_bound s) as Hv.
+  set (X := text_value s * 32 + char_value c) in *. change (5 * 5)%nat with (24 + 1)%nat.
+  assert (HX : X = X mod 256 + 256 ^ Z.of_nat 1 * (X / 256)) by (change (256 ^ Z.of_nat 1) with 256; Z.div_mod_to_equations; lia).
+  rewrite HX at 1. rewrite to_be_split by (change (256 ^ Z.of_nat 1) with 256; apply Z.mod_pos_bound; lia).
+  replace (X / 256) with (text_value s / 2 ^ 3) by (unfold X; change (2 ^ 3) with 8; Z.div_mod_to_equations; lia).
+  reflexivity.
+Qed.
+
+(* Address(str) on text of the right length over the alphabet never raises and yields the leading bytes of the spelled number *)
+Lemma from_string_spec fl s : length s = spec_encoded_size fl -> forallb in_alphabet_spec s = true ->
+  address_from_string fl s = Ok (text_to_bytes fl s).
+Proof.
+  intros Hl Ha. rewrite <- forallb_alphabets in Ha. destruct fl; unfold address_from_string, text_to_bytes.
+  - rewrite (sym_decode_pad sym_dec_pad s eq_refl Hl Ha). cbn [bind].
+    unfold slice_neg, sym_dec_lo, sym_dec_drop, slice. rewrite app_length, !length_to_be, skipn_O.
+    rewrite firstn_app_exact by now rewrite length_to_be.
+    apply address_from_bytes_ok, length_to_be.
+  - rewrite (b32decode_alpha 5 s Hl Ha). cbn [bind]. apply address_from_bytes_ok, length_to_be.
+Qed.
+
+Lemma string_roundtrip fl b : length b = spec_size fl -> wf_bytes b = true ->
+  address_from_string fl (address_to_string fl b) = Ok b.
+Proof.
+  intros Hl Hwf. destruct (to_string_shape fl b Hl) as [Hsl Hsa].
+  rewrite from_string_spec by (rewrite <- ?forallb_alphabets; assumption). f_equal.
+  destruct fl; unfold text_to_bytes.
+  - pose proof (sym_b32_roundtrip 4 b Hl Hwf) as Hrt. rewrite (sym_decode_pad 65 _ eq_refl Hsl Hsa) in Hrt.
+    injection Hrt as Hrt. apply (f_equal (firstn 24)) in Hrt.
+    rewrite !firstn_app_exact in Hrt by (rewrite ?length_to_be, ?Hl; reflexivity). exact Hrt.
+  - pose proof (b32_roundtrip_mult5 5 b Hl Hwf) as Hrt. unfold address_to_string in *.
+    rewrite (b32decode_alpha 5 _ Hsl Hsa) in Hrt. now injection Hrt.
+Qed.
+
+(* ===================================================================================================================== *)
+(* RIPEMD-160 output shape                                                                                                 *)
+
+Lemma ripemd160_length m : length (ripemd160 m) = 20%nat.
+Proof.
+  unfold ripemd160. destruct (fold_left rmd_compress (chunks 64 (rmd_pad m)) rmd_iv) as [[[[h0 h1] h2] h3] h4].
+  cbn [flat_map]. rewrite !app_length, !length_to_le. reflexivity.
+Qed.
+
+Lemma ripemd160_wf m : wf_bytes (ripemd160 m) = true.
+Proof.
+  unfold ripemd160. destruct (fold_left rmd_compress (chunks 64 (rmd_pad m)) rmd_iv) as [[[[h0 h1] h2] h3] h4].
+  cbn [flat_map]. rewrite !wf_app, !wf_to_le. reflexivity.
+Qed.
+
+(* ===================================================================================================================== *)
+(* derivation and validation, parametric in the address hasher (per flavour) and in RIPEMD-160                             *)
+
+Lemma bytes_eqb_eq a b : bytes_eqb a b = true <-> a = b.
+Proof.
+  revert b; induction a as [|x a IH]; intros [|y b]; cbn [bytes_eqb]; try (split; [discriminate | discriminate]); [tauto|].
+  rewrite andb_true_iff, IH, Z.eqb_eq. split; [intros [-> ->]; reflexivity | intros [= -> ->]; split; reflexivity].
+Qed.
+
+Lemma addr_alphabet_spec ch : existsb (Z.eqb ch) addr_alphabet = in_alphabet_spec ch.
+Proof. unfold addr_alphabet, in_alphabet_spec. cbn [existsb]. lia. Qed.
+
+Lemma alphabet_scan s : existsb (fun ch => negb (existsb (Z.eqb ch) addr_alphabet)) s = negb (forallb in_alphabet_spec s).
+Proof.
+  induction s as [|c r IH]; cbn [existsb forallb]; [reflexivity|]. rewrite IH, addr_alphabet_spec.
+  destruct (in_alphabet_spec c), (forallb in_alphabet_spec r); reflexivity.
+Qed.
+
+Lemma encoded_size_spec fl : encoded_size fl = Z.of_nat (spec_encoded_size fl).
+Proof. destruct fl; reflexivity. Qed.
+
+Section WithHashes.
+Variable H : flavor -> bytes -> bytes.
+Variable R : bytes -> bytes.
+Hypothesis H_len : forall fl x, length (H fl x) = 32%nat.
+Hypothesis R_len : forall x, length (R x) = 20%nat.
+
+Lemma version_length fl id pk : length ([id] ++ R (H fl pk)) = 21%nat.
+Proof. rewrite app_length, R_len. reflexivity. Qed.
+
+Lemma checksum_length fl x : length (firstn (spec_checksum_size fl) (H fl x)) = spec_checksum_size fl.
+Proof. apply firstn_length_le. rewrite H_len. destruct fl; cbn [spec_checksum_size]; lia. Qed.
+
+Lemma address_of_length fl id pk : length (address_of H R fl id pk) = spec_size fl.
+Proof. unfold address_of. rewrite app_length, version_length, checksum_length. destruct fl; reflexivity. Qed.
+
+Lemma address_structure fl id pk : 0 <= id < 256 -> public_key_to_address H R fl id pk = Ok (address_of H R fl id pk).
+Proof.
+  intros Hid. unfold public_key_to_address. replace (is_byte id) with true by (unfold is_byte; lia).
+  unfold create_address, slice, pk_ck_lo, pk_ck_hi, sym_ck_lo, sym_ck_hi. rewrite !skipn_O.
+  destruct fl.
+  - change (3 - 0)%nat with 3%nat. change (4 - 0)%nat with 4%nat. rewrite firstn_firstn. change (Nat.min 3 4) with 3%nat.
+    change (address_from_bytes Symbol (address_of H R Symbol id pk) = Ok (address_of H R Symbol id pk)).
+    apply address_from_bytes_ok, address_of_length.
+  - change (4 - 0)%nat with 4%nat.
+    change (address_from_bytes Nem (address_of H R Nem id pk) = Ok (address_of H R Nem id pk)).
+    apply address_from_bytes_ok, address_of_length.
+Qed.
+
+(* outside 0..255 bytes([identifier]) raises *)
+Lemma address_bad_identifier fl id pk : ~ 0 <= id < 256 -> public_key_to_address H R fl id pk = Reject.
+Proof. intros Hid. unfold public_key_to_address. replace (is_byte id) with false by (unfold is_byte; lia). reflexivity. Qed.
+
+Lemma is_valid_address_def fl id a : is_valid_address H fl id a = true <-> valid_address_spec H fl id a.
+Proof.
+  unfold is_valid_address, valid_address_spec, va_id_idx. destruct a as [|b0 r]; cbn [nth_error].
+  - split; [discriminate | intros [E _]; discriminate].
+  - unfold va_id_op, va_id_ret, va_eq_op. cbn [cmp cmp_bytes].
+    change (Z.to_nat (ev2 va_body_op va_body_a va_body_b)) with 21%nat.
+    change (Z.to_nat (ev2 va_ck_op va_ck_a va_ck_b)) with 21%nat.
+    unfold slice, va_body_lo, va_calc_lo. rewrite !skipn_O, !Nat.sub_0_r, skipn_length.
+    destruct (Z.eqb_spec b0 id) as [->|Hne]; cbn [negb].
+    + rewrite bytes_eqb_eq. split; [intros E; split; [reflexivity | exact E] | intros [_ E]; exact E].
+    + split; [discriminate | intros [[= E] _]; contradiction].
+Qed.
+
+Lemma valid_on_own_network fl id pk : is_valid_address H fl id (address_of H R fl id pk) = true.
+Proof.
+  apply is_valid_address_def. unfold valid_address_spec. split; [reflexivity|].
+  rewrite address_of_length. unfold address_of.
+  rewrite skipn_app_exact, firstn_app_exact by now rewrite version_length.
+  f_equal. destruct fl; reflexivity.
+Qed.
+
+Lemma invalid_on_other_identifier fl fl' id id' pk : id' <> id -> is_valid_address H fl' id' (address_of H R fl id pk) = false.
+Proof.
+  intros Hne. destruct (is_valid_address H fl' id' (address_of H R fl id pk)) eqn:E; [|reflexivity].
+  apply is_valid_address_def in E as [E _]. cbn in E. congruence.
+Qed.
+
+Lemma valid_string_iff fl id s :
+  is_valid_address_string H fl id s = Ok true <->
+  length s = spec_encoded_size fl /\ forallb in_alphabet_spec s = true /\ is_valid_address H fl id (text_to_bytes fl s) = true.
+Proof.
+  unfold is_valid_address_string, vs_len_op, vs_len_ret, vs_alpha_ret. cbn [cmp]. rewrite alphabet_scan, encoded_size_spec.
+  destruct (Z.eqb_spec (Z.of_nat (spec_encoded_size fl)) (Z.of_nat (length s))) as [E|E]; cbn [negb].
+  - apply Nat2Z.inj in E. destruct (forallb in_alphabet_spec s) eqn:Ha; cbn [negb].
+    + rewrite (from_string_spec fl s (eq_sym E) Ha). cbn [bind].
+      split; [intros [= Hv]; auto | intros (_ & _ & ->); reflexivity].
+    + split; [discriminate | intros (_ & Hb & _); discriminate].
+  - split; [discriminate | intros (Hl & _); lia].
+Qed.
+
+(* is_valid_address_string answers True or False on every string; it never raises *)
+Lemma valid_string_total fl id s : exists b, is_valid_address_string H fl id s = Ok b.
+Proof.
+  unfold is_valid_address_string, vs_len_op, vs_len_ret, vs_alpha_ret. cbn [cmp]. rewrite alphabet_scan, encoded_size_spec.
+  destruct (Z.eqb_spec (Z.of_nat (spec_encoded_size fl)) (Z.of_nat (length s))) as [E|E]; cbn [negb]; [|eexists; reflexivity].
+  apply Nat2Z.inj in E. destruct (forallb in_alphabet_spec s) eqn:Ha; cbn [negb]; [|eexists; reflexivity].
+  rewrite (from_string_spec fl s (eq_sym E) Ha). cbn [bind]. eexists; reflexivity.
+Qed.
+
+Hypothesis H_wf : forall fl x, wf_bytes (H fl x) = true.
+Hypothesis R_wf : forall x, wf_bytes (R x) = true.
+
+Lemma address_of_wf fl id pk : 0 <= id < 256 -> wf_bytes (address_of H R fl id pk) = true.
+Proof.
+  intros Hid. unfold address_of. rewrite !wf_app, R_wf, wf_firstn by apply H_wf.
+  cbn [wf_bytes forallb]. unfold is_byte. lia.
+Qed.
+
+(* the text of a derived address parses back to it and is a valid address string of its own network *)
+Lemma derived_address_text fl id pk : 0 <= id < 256 ->
+  address_from_string fl (address_to_string fl (address_of H R fl id pk)) = Ok (address_of H R fl id pk)
+  /\ is_valid_address_string H fl id (address_to_string fl (address_of H R fl id pk)) = Ok true.
+Proof.
+  intros Hid. pose proof (address_of_length fl id pk) as Hl. pose proof (address_of_wf fl id pk Hid) as Hwf.
+  pose proof (string_roundtrip fl _ Hl Hwf) as Hrt. split; [exact Hrt|].
+  destruct (to_string_shape fl _ Hl) as [Hsl Hsa]. rewrite forallb_alphabets in Hsa.
+  apply valid_string_iff. split; [exact Hsl|]. split; [exact Hsa|].
+  rewrite (from_string_spec fl _ Hsl Hsa) in Hrt. injection Hrt as ->. apply valid_on_own_network.
+Qed.
+
+End WithHashes.
+
+(* ===================================================================================================================== *)
+(* the shipped instances                                                                                                   *)
+
+Lemma hasher_now_length fl x : length (hasher_now fl x) = 32%nat.
+Proof. destruct fl; [apply sha3_256_length | apply keccak_256_length]. Qed.
+
+Lemma hasher_now_wf fl x : wf_bytes (hasher_now fl x) = true.
+Proof. destruct fl; [apply sha3_256_wf | apply keccak_256_wf]. Qed.
+
+Lemma b32decode_total n s : length s = (8 * n)%nat -> forallb in_alphabet_spec s = true ->
+  b32decode s = Ok (to_be (5 * n) (text_value s)).
+Proof. intros Hl Ha. apply b32decode_alpha; [exact Hl | now rewrite forallb_alphabets]. Qed.
+
+Lemma to_string_shape_spec fl b : length b = spec_size fl ->
+  length (address_to_string fl b) = spec_encoded_size fl /\ forallb in_alphabet_spec (address_to_string fl b) = true.
+Proof. intros Hl. rewrite <- forallb_alphabets. now apply to_string_shape. Qed.
+
+(* shipped identifiers: bytes, and mainnet differs from testnet *)
+Definition mainnet_id (fl : flavor) : Z := match fl with Symbol => sym_mainnet_id | Nem => nem_mainnet_id end.
+Definition testnet_id (fl : flavor) : Z := match fl with Symbol => sym_testnet_id | Nem => nem_testnet_id end.
+
+Lemma shipped_identifiers fl : 0 <= mainnet_id fl < 256 /\ 0 <= testnet_id fl < 256 /\ mainnet_id fl <> testnet_id fl.
+Proof. destruct fl; cbv [mainnet_id testnet_id sym_mainnet_id sym_testnet_id nem_mainnet_id nem_testnet_id]; lia. Qed.
+
+Lemma shipped_derive_validate_roundtrip fl id pk a : 0 <= id < 256 ->
+  public_key_to_address_now fl id pk = Ok a ->
+  a = address_of hasher_now ripemd160 fl id pk
+  /\ is_valid_address_now fl id a = true
+  /\ (forall fl' id', id' <> id -> is_valid_address_now fl' id' a = false)
+  /\ address_from_string fl (address_to_string fl a) = Ok a
+  /\ is_valid_address_string_now fl id (address_to_string fl a) = Ok true.
+Proof.
+  intros Hid Ha. unfold public_key_to_address_now in Ha.
+  rewrite (address_structure hasher_now ripemd160 hasher_now_length ripemd160_length fl id pk Hid) in Ha. injection Ha as <-.
+  split; [reflexivity|]. split; [apply valid_on_own_network; [apply hasher_now_length | apply ripemd160_length]|].
+  split; [intros fl' id' Hne; now apply invalid_on_other_identifier|].
+  exact (derived_address_text hasher_now ripemd160 hasher_now_length ripemd160_length hasher_now_wf ripemd160_wf fl id pk Hid).
+Qed.
+
+Lemma shipped_networks_separate fl pk :
+  (exists a, public_key_to_address_now fl (mainnet_id fl) pk = Ok a
+             /\ is_valid_address_now fl (mainnet_id fl) a = true /\ is_valid_address_now fl (testnet_id fl) a = false)
+  /\ (exists a, public_key_to_address_now fl (testnet_id fl) pk = Ok a
+                /\ is_valid_address_now fl (testnet_id fl) a = true /\ is_valid_address_now fl (mainnet_id fl) a = false).
+Proof.
+  destruct (shipped_identifiers fl) as (Hm & Ht & Hne).
+  split; eexists; (split; [apply (address_structure hasher_now ripemd160 hasher_now_length ripemd160_length); assumption|]);
+    (split; [apply valid_on_own_network; [apply hasher_now_length | apply ripemd160_length]
+            | apply invalid_on_other_identifier; congruence]).
+Qed.
+
+Lemma address_structure_symbol id pk : 0 <= id < 256 ->
+  public_key_to_address_now Symbol id pk =
+  Ok (([id] ++ ripemd160 (sha3_256 pk)) ++ firstn 3 (sha3_256 ([id] ++ ripemd160 (sha3_256 pk)))).
+Proof.
+  intros Hid. unfold public_key_to_address_now.
+  rewrite (address_structure hasher_now ripemd160 hasher_now_length ripemd160_length Symbol id pk Hid).
+  unfold address_of, hasher_now, spec_checksum_size. reflexivity.
+Qed.
+
+Lemma address_structure_nem id pk : 0 <= id < 256 ->
+  public_key_to_address_now Nem id pk =
+  Ok (([id] ++ ripemd160 (keccak_256 pk)) ++ firstn 4 (keccak_256 ([id] ++ ripemd160 (keccak_256 pk)))).
+Proof.
+  intros Hid. unfold public_key_to_address_now.
+  rewrite (address_structure hasher_now ripemd160 hasher_now_length ripemd160_length Nem id pk Hid).
+  unfold address_of, hasher_now, spec_checksum_size. reflexivity.
+Qed.
